@@ -150,12 +150,16 @@ func runC07(c *Ctx) {
 	R := c.R
 	R.Rule("sentinel-guard", "a result of a function that can return -1 reaches an index, a slice bound or an index parameter only after a comparison that excludes -1", 3)
 	R.Rule("encapsulation", "Sorted.slice is written only via Insert (Add) and Remove (Remove, RemoveAt); never returned, sub-sliced out, or passed to another callee that could keep or write it", 3)
+	R.Rule("splice-primitives", "slices.Insert / slices.Remove (which Add, Remove and RemoveAt delegate to): grow by one, shift by one from index on the grown slice, write at index; shift down by one, truncate by one", 2)
 	R.Rule("input-copied", "every constructor of Sorted builds its slice with make+copy on every path (or hands its argument to one that does); the argument is never written or sorted", 2)
 	R.Rule("sorted-on-entry", "every constructor of Sorted sorts the fresh copy with a less(s[i], s[j]) adapter over the less function it keeps", 2)
 	R.Rule("insert-at-search", "Add inserts at search(value) and returns that same position", 1)
 	R.Rule("lower-bound", "search = sort.Search(len(slice), !less(slice[i], value))", 1)
 	R.Rule("index-validates", "Index returns a position only after slice[i] == value with 0 <= i < Len", 1)
 	R.Rule("remove-validated", "Remove deletes only at the validated position, returns it, and otherwise returns -1 without changing anything", 1)
+	R.Rule("bounds-table", "Get and RemoveAt proceed exactly on 0 <= index < Len and panic exactly outside", 2)
+	R.Rule("len-table", "Len of a non-nil Sorted is len(slice)", 1)
+	R.Rule("panic-justified", "methods of Sorted panic explicitly only for a nil receiver, a nil comparator or an index outside [0,Len)", 4)
 	R.Rule("position", "Get returns slice[index]; RemoveAt removes at exactly index; Contains agrees with Index", 3)
 
 	sliceF := c.P.FieldOf("slices", "Sorted", "slice")
@@ -352,6 +356,8 @@ func runC07(c *Ctx) {
 		}
 	}
 
+	// ---- the primitives Add/Remove/RemoveAt delegate to
+	c12Splice(c, "splice-primitives", false)
 	// ---- constructors: every function of the package that returns a Sorted
 	nctor := 0
 	for _, fi := range c.P.FuncsOfPkg("slices") {
@@ -461,6 +467,47 @@ func runC07(c *Ctx) {
 				r := p.Rets[0]
 				if r.IsConst("-1") {
 					sawMiss = true
+					// a miss must be justified by the LAST test on the path being exactly one of:
+					// position < 0, position >= Len, slice[position] != value
+					if len(p.Conds) == 0 {
+						ok, why = false, "reports a miss unconditionally"
+						continue
+					}
+					last := p.Conds[len(p.Conds)-1].Rel()
+					just := false
+					var pos *Term
+					for i := range p.Events {
+						if e := &p.Events[i]; e.Kind == "call" && e.Name == "slices.(*Sorted).search" {
+							pos = e.Res
+						}
+					}
+					if pos != nil && last.B != nil {
+						if last.Op == "!=" {
+							a, b := last.A, last.B
+							for k := 0; k < 2; k++ {
+								if a.Op == "load" && a.Args[0].Op == "iaddr" && isFieldLoad(a.Args[0].Args[0], sliceF, recv) && a.Args[0].Args[1].Key() == pos.Key() && isParam(b, 1) {
+									just = true
+								}
+								a, b = b, a
+							}
+						}
+						if pl, kind, isInt := last.IntNorm(); isInt && kind == ">" {
+							pp := ToPoly(pos)
+							if pl.Equal(polyConst(0).Add(pp, -1)) {
+								just = true
+							}
+							for _, at := range pl.Atoms {
+								if (at.Op == "call" && at.Sym == "slices.(*Sorted).Len") || (at.Op == "builtin" && at.Sym == "len" && isFieldLoad(at.Args[0], sliceF, recv)) {
+									if pl.Equal(pp.Add(polyAtom(at), -1).Add(polyConst(1), 1)) {
+										just = true
+									}
+								}
+							}
+						}
+					}
+					if !just {
+						ok, why = false, "a miss is reported on a path whose deciding test is not one of: position < 0, position >= Len, slice[position] != value ("+last.String()+")"
+					}
 					continue
 				}
 				sawHit = true
@@ -582,6 +629,148 @@ func runC07(c *Ctx) {
 				o.Breaks = "Remove of an absent value deletes another element"
 			}
 		}
+	}
+	// ---- bounds-table: Get / RemoveAt proceed exactly for 0 <= index < Len and panic otherwise
+	for _, name := range []string{"slices.(*Sorted).Get", "slices.(*Sorted).RemoveAt"} {
+		fi := c.fn("bounds-table", name)
+		ps := c.paths("bounds-table", fi)
+		if ps == nil {
+			continue
+		}
+		recv, index := paramOf(fi, 0), paramOf(fi, 1)
+		ok, why := true, ""
+		nOK, nPanic := 0, 0
+		for _, p := range ps {
+			lo, hi, below, above := false, false, false, false
+			for _, cd := range p.Conds {
+				pl, kind, isInt := cd.Rel().IntNorm()
+				if !isInt || kind != ">" {
+					continue
+				}
+				ip := ToPoly(index)
+				if pl.Equal(ip.Add(polyConst(1), 1)) { // index + 1 > 0
+					lo = true
+				}
+				if pl.Equal(polyConst(0).Add(ip, -1)) { // -index > 0
+					below = true
+				}
+				for _, at := range pl.Atoms {
+					isLen := (at.Op == "call" && at.Sym == "slices.(*Sorted).Len" && at.Args[0].Key() == recv.Key()) || (at.Op == "builtin" && at.Sym == "len" && isFieldLoad(at.Args[0], sliceF, recv))
+					if !isLen {
+						continue
+					}
+					lp := polyAtom(at)
+					if pl.Equal(lp.Add(ip, -1)) { // Len - index > 0
+						hi = true
+					}
+					if pl.Equal(ip.Add(lp, -1).Add(polyConst(1), 1)) { // index - Len + 1 > 0
+						above = true
+					}
+				}
+			}
+			switch p.End {
+			case EndPanic:
+				nPanic++
+				if !below && !above {
+					ok, why = false, "a path panics although neither index < 0 nor index >= Len holds on it: "+p.CondString()
+				}
+			case EndReturn:
+				nOK++
+				if !lo || !hi {
+					ok, why = false, "a path proceeds without having established 0 <= index < Len exactly: "+p.CondString()
+				}
+			}
+		}
+		if ok && (nOK == 0 || nPanic == 0) {
+			ok, why = false, "missing the proceeding or the panicking row"
+		}
+		R.Decide(ok, "bounds-table", fi.Name, "rows", c.pos(fi), "proceeds exactly when 0 <= index < Len, panics otherwise", why)
+	}
+	// ---- len-table and panic-justified
+	if fi := c.fn("len-table", "slices.(*Sorted).Len"); fi != nil {
+		if ps := c.paths("len-table", fi); ps != nil {
+			recv := paramOf(fi, 0)
+			ok, why := true, ""
+			live := 0
+			for _, p := range ps {
+				if p.End != EndReturn || len(p.Rets) != 1 {
+					ok, why = false, "a path of Len does not return"
+					continue
+				}
+				recvNil := false
+				for _, cd := range p.Conds {
+					r := cd.Rel()
+					if r.B != nil && r.Op == "==" && r.B.IsNil() && r.A.Key() == recv.Key() {
+						recvNil = true
+					}
+				}
+				if recvNil {
+					continue // behaviour on a nil receiver is outside the property
+				}
+				live++
+				if !isLenOf(p.Rets[0], &Term{Op: "load", Args: []*Term{{Op: "faddr", Args: []*Term{recv}, Obj: sliceF}}}) {
+					ok, why = false, "for a non-nil receiver Len returns "+p.Rets[0].String()+", not len(slice)"
+				}
+			}
+			if ok && live == 0 {
+				ok, why = false, "no path for a non-nil receiver"
+			}
+			R.Decide(ok, "len-table", fi.Name, "rows", c.pos(fi), "non-nil receiver -> len(slice)", why)
+		}
+	}
+	for _, fi := range c.P.FuncsOfPkg("slices") {
+		if !strings.HasPrefix(fi.Name, "slices.(*Sorted).") && !strings.HasPrefix(fi.Name, "slices.(Sorted).") {
+			continue
+		}
+		fp := c.An.PathsOf(fi.SSA)
+		if fp.Unproven != "" {
+			continue
+		}
+		recv := paramOf(fi, 0)
+		lessF := c.P.FieldOf("slices", "Sorted", "less")
+		ok, why := true, ""
+		np, nret := 0, 0
+		for _, p := range fp.Paths {
+			if p.End == EndReturn {
+				nret++
+			}
+			if p.End != EndPanic {
+				continue
+			}
+			np++
+			if len(p.Conds) == 0 {
+				ok, why = false, "panics unconditionally"
+				continue
+			}
+			last := p.Conds[len(p.Conds)-1].Rel()
+			just := false
+			if last.B != nil && last.Op == "==" && last.B.IsNil() && (last.A.Key() == recv.Key() || isFieldLoad(last.A, lessF, recv)) {
+				just = true // nil receiver / uninitialised comparator
+			}
+			if pl, kind, isInt := last.IntNorm(); isInt && kind == ">" && len(fi.SSA.Params) > 1 {
+				ip := ToPoly(paramOf(fi, 1))
+				if pl.Equal(polyConst(0).Add(ip, -1)) {
+					just = true
+				}
+				for _, at := range pl.Atoms {
+					if (at.Op == "call" && at.Sym == "slices.(*Sorted).Len") || (at.Op == "builtin" && at.Sym == "len") {
+						if pl.Equal(ip.Add(polyAtom(at), -1).Add(polyConst(1), 1)) {
+							just = true
+						}
+					}
+				}
+			}
+			if !just {
+				ok, why = false, "panics on a path decided by "+last.String()+", which is none of: nil receiver, nil comparator, index < 0, index >= Len"
+			}
+		}
+		if np == 0 {
+			continue
+		}
+		if ok && nret == 0 {
+			ok, why = false, "every path panics"
+		}
+		R.Decide(ok, "panic-justified", fi.Name, "panics", c.pos(fi), fmt.Sprintf("%d explicit panics, each decided by a nil receiver/comparator or an out-of-range index", np), why)
 	}
 	// ---- positions
 	if fi := c.fn("position", "slices.(*Sorted).Get"); fi != nil {
